@@ -51,7 +51,8 @@ static struct cmb_objectqueue oq;
 static int op, victim;
 static const char *mode;
 
-#define FAIL(rule, ...) do { char s_[120]; snprintf(s_, sizeof s_, "c10:%s:%s", mode, rule); vx_violation(s_, __VA_ARGS__); } while (0)
+static const char *propid = "c10"; /* --opt prop=c06: the same ramp registered under another property (order oracle) */
+#define FAIL(rule, ...) do { char s_[120]; snprintf(s_, sizeof s_, "%s:%s:%s", propid, mode, rule); vx_violation(s_, __VA_ARGS__); } while (0)
 
 static void dummy(void *s, void *o)
 {
@@ -198,6 +199,22 @@ static void run_guardq(void)
     const int expect = n - ((op == 1 || op == 2 || op == 4 || op == 5) ? 1 : 0);
     if (served != expect) {
         FAIL("served-count", "n=%d op=%d victim=%d: %d waiters were served, expected %d", n, op, victim, served, expect);
+    }
+    /* service order with 7-17 waiters (the waiting list has grown once or twice): higher priority first, equal
+     * priorities in the order of arrival (= index); a priority raised to 9 at t=2 goes to the front */
+    for (int i = 1; i <= n && served == expect; i++) {
+        for (int j = 1; j <= n; j++) {
+            if (i == j || retsig[i] != CMB_PROCESS_SUCCESS || retsig[j] != CMB_PROCESS_SUCCESS) {
+                continue;
+            }
+            const int pi = (op == 3 && i == victim) ? 9 : i % 3, pj = (op == 3 && j == victim) ? 9 : j % 3;
+            if ((pi > pj || (pi == pj && i < j)) && !(rettime[i] < rettime[j])) {
+                FAIL("service-order", "n=%d op=%d victim=%d: waiter %d (priority %d) was served at t=%g, waiter %d (priority %d, "
+                     "%s) at t=%g", n, op, victim, i, pi, rettime[i], j, pj, pi > pj ? "lower" : "arrived later", rettime[j]);
+                i = n + 1;
+                break;
+            }
+        }
     }
     vx_outcome((uint64_t)n * 100 + (uint64_t)op * 10 + (uint64_t)which);
     vx_state((uint64_t)n * 100 + (uint64_t)op * 10 + (uint64_t)which);
@@ -637,6 +654,7 @@ static void ginit(void)
 {
     mode = vx_opt("mode", "evwait");
     cmb_logger_flags_off(0x7FFFFFFFu);
+    propid = vx_opt("prop", "c10");
     POOLS[0] = &cmi_process_awaitabletags;
     POOLS[1] = &cmi_process_holdabletags;
     POOLS[2] = &cmi_process_waitertags;
